@@ -4,7 +4,7 @@
 From Coq Require Import ZArith List Bool Lia Znumtheory Zdiv Morphisms Setoid.
 Require Import Spec.Params Spec.Field Spec.Curve Spec.Bytes Spec.Sha256.
 Require Import Model.Base Model.Der Model.Adaptor.
-Require Import Proofs.MathFacts Proofs.GroupLemmas Proofs.AdaptorProofs.
+Require Import Proofs.MathFacts Proofs.GroupLemmas Proofs.BytesLemmas Proofs.AdaptorProofs.
 Import ListNotations.
 Local Open Scope Z_scope.
 
@@ -180,5 +180,128 @@ Proof.
   cbv zeta in AE. fold sp in AE. rewrite AE.
   assert (HR : pmul k0 G <> None) by (apply pmul_nonzero; [exact ordn_G|apply (mf_G P MF)|lia]).
   destruct (pmul k0 G) as [q|] eqn:EkG; [|contradiction]. cbn [is_inf negb andb]. apply point_eqb_refl.
+Qed.
+
+(* ---------------------------------------------------------------- decrypt / recover are inverse *)
+Hypothesis Hn256 : n < 2 ^ 256.
+Hypothesis Hn2 : 2 < n.
+
+Lemma mneg_involutive y : 0 < y < n -> mneg n (mneg n y) = y.
+Proof.
+  intros Hy. unfold mneg.
+  replace (- y) with (n - y + (-1) * n) by ring. rewrite Z.mod_add by lia. rewrite (Z.mod_small (n - y)) by lia.
+  replace (- (n - y)) with (y + (-1) * n) by ring. rewrite Z.mod_add by lia. apply Z.mod_small. lia.
+Qed.
+
+Lemma ordn_pmul_G y : 0 <= y -> ordn (pmul y G).
+Proof.
+  intros Hy. pose proof npos as Hn. pose proof (oc_G P MF) as HG. split; [apply (oc_pmul P MF); exact HG|].
+  rewrite <- (pmul_mul P MF) by (auto; lia). rewrite Z.mul_comm. rewrite (pmul_mul P MF) by (auto; lia).
+  rewrite (pmul_n_G P MF). apply (pmul_None P MF).
+Qed.
+
+(* a point of odd prime order has y <> 0, so negation flips the parity of y *)
+Lemma neg_flips_parity Q x yc : ordn Q -> Q = Some (x, yc) ->
+  Z.odd (mneg p yc) = negb (Z.odd yc).
+Proof.
+  intros HQ EQ. pose proof HQ as [Hoc _].
+  assert (Hy : 0 <= yc < p).
+  { rewrite EQ in Hoc. unfold MathFacts.oc, on_curve in Hoc.
+    destruct (0 <=? x), (x <? p), (0 <=? yc) eqn:C, (yc <? p) eqn:D; cbn [andb] in Hoc; try discriminate.
+    apply Z.leb_le in C. apply Z.ltb_lt in D. lia. }
+  assert (Hy0 : yc <> 0).
+  { intros E0. subst yc.
+    assert (E2 : pmul 2 Q = None).
+    { change (pmul 2 Q) with (pdbl P Q). rewrite (pdbl_padd P). rewrite EQ at 2.
+      replace (Some (x, 0)) with (Curve.pneg P Q) by (rewrite EQ; unfold Curve.pneg, mneg; rewrite Z.mod_0_l by lia; reflexivity).
+      apply (padd_neg P MF). exact Hoc. }
+    revert E2. apply pmul_nonzero; [exact HQ|rewrite EQ; discriminate|lia]. }
+  assert (Hpodd : Z.odd p = true).
+  { pose proof (mf_p_3mod4 P MF) as H4.
+    assert (E : p = 1 + 2 * (2 * (p / 4) + 1)) by (pose proof (Z.div_mod p 4); lia).
+    rewrite E. rewrite Z.odd_add_mul_2. reflexivity. }
+  unfold mneg. replace (- yc) with (p - yc + (-1) * p) by ring. rewrite Z.mod_add by lia. rewrite Z.mod_small by lia.
+  rewrite Z.odd_sub, Hpodd. destruct (Z.odd yc); reflexivity.
+Qed.
+
+Lemma recover_inverse : forall sig162 encobj sigr sp y s,
+  adaptor_sig_deserialize_part P sig162 = Some (sigr, sp) ->
+  0 < y < n -> pk_load encobj = Some (pmul y G) ->
+  0 <= s < n -> (eqm n (s * y) sp \/ eqm n (s * y) (- sp)) ->
+  adaptor_recover P (sig_obj sigr s) sig162 encobj = [AInt 1; ABytes (sc_to_b32 y)].
+Proof.
+  intros sig162 encobj sigr sp y s Hpart Hy HL Hs Hrel. pose proof npos as Hn.
+  pose proof (proj1 (codec_part_exact P sig162 sigr sp) Hpart) as (Esr & Hsr0 & Esp & Hspr).
+  assert (Hsr : 0 <= sigr < n) by (rewrite Esr; apply Z.mod_pos_bound; exact Hn).
+  assert (Hspn : ~ eqm n sp 0) by (unfold eqm; rewrite Z.mod_small, Z.mod_0_l by lia; lia).
+  assert (Hs0 : s <> 0).
+  { intros E. subst s. destruct Hrel as [H|H]; apply Hspn.
+    - rewrite <- H. apply eq_eqm. ring.
+    - transitivity (- (- sp)); [apply eq_eqm; ring|]. rewrite <- H. apply eq_eqm. ring. }
+  assert (Is : eqm n (sc_inv P s * s) 1) by (unfold eqm, sc_inv; rewrite (if_ninv P IF s) by lia; rewrite Z.mod_small; lia).
+  unfold adaptor_recover. rewrite Hpart, HL.
+  unfold sc_of_b32, sig_obj, sc_to_b32. cbn [fst].
+  rewrite firstn_app, be_enc_length, Nat.sub_diag, firstn_O, app_nil_r.
+  rewrite firstn_all2 by (rewrite be_enc_length; lia).
+  rewrite skipn_app, be_enc_length, Nat.sub_diag. rewrite skipn_all2 by (rewrite be_enc_length; lia). cbn [skipn app].
+  rewrite !be_val_enc by (rewrite pow256_32; lia).
+  rewrite (Z.mod_small sigr), (Z.mod_small s) by lia.
+  rewrite Z.eqb_refl. destruct (s =? 0) eqn:Es; [apply Z.eqb_eq in Es; contradiction|]. cbn [negb andb].
+  set (dk := sc_mul P (sc_inv P s) sp).
+  assert (Hdk : 0 <= dk < n) by (apply Z.mod_pos_bound; exact Hn).
+  pose proof (ordn_pmul_G y (Z.lt_le_incl _ _ (proj1 Hy))) as HordY.
+  assert (HYn : pmul y G <> None) by (apply pmul_nonzero; [exact ordn_G|apply (mf_G P MF)|lia]).
+  destruct Hrel as [Hrel|Hrel].
+  - (* s = y^-1 s': the implied key is y itself *)
+    assert (E : dk = y).
+    { assert (X : eqm n dk y).
+      { unfold dk, sc_mul, mmul. rewrite eqm_mod, <- Hrel.
+        transitivity ((sc_inv P s * s) * y); [apply eq_eqm; ring|]. rewrite Is. apply eq_eqm. ring. }
+      unfold eqm in X. rewrite (Z.mod_small dk), (Z.mod_small y) in X by lia. exact X. }
+    rewrite E. rewrite Z.eqb_refl. cbn [negb]. rewrite Bool.eqb_reflx. reflexivity.
+  - (* s = -(y^-1 s'): the implied key is -y, its point is -Y with the other parity *)
+    assert (E : dk = mneg n y).
+    { assert (X : eqm n dk (- y)).
+      { unfold dk, sc_mul, mmul. rewrite eqm_mod.
+        transitivity (- (sc_inv P s * (- sp))); [apply eq_eqm; ring|]. rewrite <- Hrel.
+        transitivity (- ((sc_inv P s * s) * y)); [apply eq_eqm; ring|]. rewrite Is. apply eq_eqm. ring. }
+      unfold eqm in X. rewrite (Z.mod_small dk) in X by lia. exact X. }
+    rewrite E. rewrite (pmul_mneg P MF) by lia.
+    destruct (pmul y G) as [[x yc]|] eqn:EY; [|contradiction].
+    cbn [Curve.pneg px py]. rewrite Z.eqb_refl. cbn [negb].
+    rewrite (neg_flips_parity (Some (x, yc)) x yc HordY eq_refl).
+    destruct (Z.odd yc); cbn [negb Bool.eqb].
+    + unfold sc_neg. rewrite mneg_involutive by lia. reflexivity.
+    + unfold sc_neg. rewrite mneg_involutive by lia. reflexivity.
+Qed.
+
+(* decrypt then recover, from the signature AND from its negated-s twin, gives back exactly the decryption key *)
+Lemma recover_decrypt : forall deckey32 sig162 encobj sigr sp,
+  adaptor_sig_deserialize_part P sig162 = Some (sigr, sp) ->
+  0 < be_val deckey32 < n -> pk_load encobj = Some (pmul (be_val deckey32) G) ->
+  exists s, adaptor_decrypt P deckey32 sig162 = [AInt 1; ABytes (sig_obj sigr s)] /\ sc_is_high P s = false /\
+    adaptor_recover P (sig_obj sigr s) sig162 encobj = [AInt 1; ABytes (sc_to_b32 (be_val deckey32))] /\
+    adaptor_recover P (sig_obj sigr (sc_neg P s)) sig162 encobj = [AInt 1; ABytes (sc_to_b32 (be_val deckey32))].
+Proof.
+  intros deckey32 sig162 encobj sigr sp Hpart Hy HL. pose proof npos as Hn.
+  set (y := be_val deckey32) in *.
+  assert (Ey : y mod n = y) by (apply Z.mod_small; lia).
+  pose proof (decrypt_success P deckey32 sig162 sigr sp Hpart (proj2 Hy)) as HD. fold y in HD. rewrite Ey in HD.
+  specialize (HD ltac:(lia)). cbv zeta in HD.
+  set (s0 := sc_mul P (sc_inv P y) sp) in *.
+  assert (Iy : eqm n (sc_inv P y * y) 1) by (unfold eqm, sc_inv; rewrite (if_ninv P IF y) by lia; rewrite Z.mod_small; lia).
+  assert (R0 : eqm n (s0 * y) sp).
+  { unfold s0, sc_mul, mmul. rewrite eqm_mod. transitivity ((sc_inv P y * y) * sp); [apply eq_eqm; ring|]. rewrite Iy. apply eq_eqm. ring. }
+  assert (Rn : forall t, eqm n (sc_neg P t * y) (- (t * y))).
+  { intros t. unfold sc_neg, mneg. rewrite eqm_mod. apply eq_eqm. ring. }
+  assert (Hr : forall t, 0 <= sc_neg P t < n) by (intros; apply Z.mod_pos_bound; exact Hn).
+  assert (Hs0 : 0 <= s0 < n) by (apply Z.mod_pos_bound; exact Hn).
+  exists (if sc_is_high P s0 then sc_neg P s0 else s0). split; [exact HD|]. split; [apply (low_s_normalised P Hn)|].
+  destruct (sc_is_high P s0).
+  - split; apply (recover_inverse sig162 encobj sigr sp y); auto.
+    + right. rewrite Rn, R0. reflexivity.
+    + left. rewrite Rn, Rn, R0. apply eq_eqm. ring.
+  - split; apply (recover_inverse sig162 encobj sigr sp y); auto.
+    right. rewrite Rn, R0. reflexivity.
 Qed.
 End AdaptorComplete.
